@@ -89,13 +89,12 @@ def run(tier):
             raise MachineryError(f"{text}: {exc}")
         refs = [R.law(f, p) for f, p, _ in blocks]
         masses = [UNIT[u] for _, _, u in blocks]
-        tables = []
-        for ref, m in zip(refs, masses):
-            K = 80
-            if ref.discrete or isinstance(ref, R.SchulzZimm):
-                tables.append([sc(ref.cdf(math.floor(k * m + 1e-9) if ref.discrete else k * m)) for k in range(1, K + 1)])
-            else:
-                tables.append([sc(ref.cdf(k * m)) for k in range(1, K + 1)])
+        def table_at(ref, m, k):
+            """the declared law's cumulative value at the mass of k units"""
+            if k <= 0:
+                return -S
+            x = math.floor(k * m + 1e-9) if ref.discrete else k * m
+            return sc(ref.cdf(x))
         grid = [(i + 0.5) / Q for i in range(Q)]
         sweeps = []
         if len(blocks) == 1:
@@ -148,7 +147,7 @@ def run(tier):
                     skipped_edge += 1
                     continue
                 uu = R.phi(vals[b]) if fam == "gauss" else u
-                records.append({"kind": "block", "u": sc(uu), "n": int(n_obs), "table": tables[b], "tol": 0})
+                records.append({"kind": "block", "u": sc(uu), "n": int(n_obs), "lo": table_at(ref, m, n_obs - 1), "hi": table_at(ref, m, n_obs), "tol": 0})
                 meta.append((text, b, fam, par, u, t, n_obs, draws[b]["val"]))
                 if len(samples) < 5 and b == 0 and abs(u - 0.5) < 0.02:
                     samples.append({"molecule": text, "quantile": u, "reference_target": t, "drawn": draws[b]["val"], "units": n_obs})
